@@ -144,69 +144,69 @@ func genRowPerm(t *rapid.T, label string, group []string) ([]int, string) {
 	}
 }
 
-func TestC08(t *testing.T) {
-	rapid.Check(t, func(t *rapid.T) {
-		o := sgen.DefaultGenOpts()
-		o.SortedRows, o.ExplicitDefaults = true, true
-		o.MinTrips, o.MinStopTimes, o.MinShapes, o.MinPoints = 2, 3, 2, 3
-		o.MaxTrips, o.MaxStopTimes, o.MaxShapes, o.MaxPoints = 4, 6, 3, 6
-		if tierThorough() && rapid.IntRange(0, 3).Draw(t, "large") == 0 {
-			o.MaxTrips, o.MaxStopTimes, o.MaxShapes, o.MaxPoints = 12, 40, 6, 40
-		}
-		many := rapid.IntRange(0, 14).Draw(t, "many") == 0
-		if many {
-			// many distinct trips / shapes with few rows each: grouping structures that grow while rows of earlier groups still arrive
-			n := rapid.SampledFrom([]int{17, 33, 40, 70}).Draw(t, "manyN")
-			o.MinTrips, o.MaxTrips, o.MinShapes, o.MaxShapes = n, n, n, n
-			o.MinStopTimes, o.MaxStopTimes, o.MinPoints, o.MaxPoints = 2, 3, 2, 3
-			o.MaxStops, o.MaxFreq, o.MaxTransfers = 6, 0, 0
-		}
-		f, _ := sgen.GenFeed(t, o)
-		var g1, g2 []string
-		for _, st := range f.StopTimes {
-			g1 = append(g1, st.TripID)
-		}
-		for _, sh := range f.Shapes {
-			g2 = append(g2, sh.ShapeID)
-		}
-		p1, k1 := genRowPerm(t, "st", g1)
-		p2, k2 := genRowPerm(t, "shape", g2)
-		c := CaseC08{Feed: f, STPerm: p1, ShapePerm: p2}
-		cls08 := []string{"stop_times:" + k1, "shapes:" + k2}
-		if many {
-			cls08 = append(cls08, fmt.Sprintf("many-groups-%d", len(f.Trips)))
-		}
-		c08Rec.Eval(cls08...)
-		// non-trivial: two trips interleaved and some trip's rows out of order
-		interleaved, outOfOrder := false, false
-		lastSeq := map[string]int{}
-		seenDone := map[string]bool{}
-		prev := ""
-		for _, p := range p1 {
-			r := f.StopTimes[p]
-			if r.TripID != prev {
-				if seenDone[r.TripID] {
-					interleaved = true
-				}
-				if prev != "" {
-					seenDone[prev] = true
-				}
-				prev = r.TripID
+func TestC08(t *testing.T) { rapid.Check(t, propC08) }
+
+func propC08(t *rapid.T) {
+	o := sgen.DefaultGenOpts()
+	o.SortedRows, o.ExplicitDefaults = true, true
+	o.MinTrips, o.MinStopTimes, o.MinShapes, o.MinPoints = 2, 3, 2, 3
+	o.MaxTrips, o.MaxStopTimes, o.MaxShapes, o.MaxPoints = 4, 6, 3, 6
+	if tierThorough() && rapid.IntRange(0, 3).Draw(t, "large") == 0 {
+		o.MaxTrips, o.MaxStopTimes, o.MaxShapes, o.MaxPoints = 12, 40, 6, 40
+	}
+	many := rapid.IntRange(0, 14).Draw(t, "many") == 0
+	if many {
+		// many distinct trips / shapes with few rows each: grouping structures that grow while rows of earlier groups still arrive
+		n := rapid.SampledFrom([]int{17, 33, 40, 70}).Draw(t, "manyN")
+		o.MinTrips, o.MaxTrips, o.MinShapes, o.MaxShapes = n, n, n, n
+		o.MinStopTimes, o.MaxStopTimes, o.MinPoints, o.MaxPoints = 2, 3, 2, 3
+		o.MaxStops, o.MaxFreq, o.MaxTransfers = 6, 0, 0
+	}
+	f, _ := sgen.GenFeed(t, o)
+	var g1, g2 []string
+	for _, st := range f.StopTimes {
+		g1 = append(g1, st.TripID)
+	}
+	for _, sh := range f.Shapes {
+		g2 = append(g2, sh.ShapeID)
+	}
+	p1, k1 := genRowPerm(t, "st", g1)
+	p2, k2 := genRowPerm(t, "shape", g2)
+	c := CaseC08{Feed: f, STPerm: p1, ShapePerm: p2}
+	cls08 := []string{"stop_times:" + k1, "shapes:" + k2}
+	if many {
+		cls08 = append(cls08, fmt.Sprintf("many-groups-%d", len(f.Trips)))
+	}
+	c08Rec.Eval(cls08...)
+	// non-trivial: two trips interleaved and some trip's rows out of order
+	interleaved, outOfOrder := false, false
+	lastSeq := map[string]int{}
+	seenDone := map[string]bool{}
+	prev := ""
+	for _, p := range p1 {
+		r := f.StopTimes[p]
+		if r.TripID != prev {
+			if seenDone[r.TripID] {
+				interleaved = true
 			}
-			if ls, ok := lastSeq[r.TripID]; ok && r.Seq < ls {
-				outOfOrder = true
+			if prev != "" {
+				seenDone[prev] = true
 			}
-			lastSeq[r.TripID] = r.Seq
+			prev = r.TripID
 		}
-		if interleaved && outOfOrder {
-			c08Rec.NontrivialCase(vt.Fingerprint(c), func() any {
-				var rows [][]any
-				for _, p := range p1 {
-					rows = append(rows, []any{f.StopTimes[p].TripID, f.StopTimes[p].Seq})
-				}
-				return map[string]any{"stop_times_rows(trip,seq)": rows, "shape_perm": p2}
-			})
+		if ls, ok := lastSeq[r.TripID]; ok && r.Seq < ls {
+			outOfOrder = true
 		}
-		vt.Run(t, c08Rec, c, checkC08)
-	})
+		lastSeq[r.TripID] = r.Seq
+	}
+	if interleaved && outOfOrder {
+		c08Rec.NontrivialCase(vt.Fingerprint(c), func() any {
+			var rows [][]any
+			for _, p := range p1 {
+				rows = append(rows, []any{f.StopTimes[p].TripID, f.StopTimes[p].Seq})
+			}
+			return map[string]any{"stop_times_rows(trip,seq)": rows, "shape_perm": p2}
+		})
+	}
+	vt.Run(t, c08Rec, c, checkC08)
 }
